@@ -2,10 +2,12 @@
    Part 1: a non-accumulating presentation [ileave] of [interleave], the step cost that shows
            the fuel of [run_sched] sufficient, runs of one process alone ([solo]) and the
            theorem on serial picks.
-   Part 2: an instrumented run recording, for every mount that lands on a mounted mountpoint,
-           the table as the caller last read it ([stack_only_if_stale]).
-   Part 3: codes that only probe and mount: no stacking implies a serial outcome.
-   (Part 4, the case-level statements, is in Proofs/C20P.v.) *)
+   Part 2: what one step does ([step_kind]); an instrumented run carrying per process the table
+           as it last read it and the mounts made since, recording every mount that lands on
+           a mounted mountpoint ([stack_only_if_stale], [stack_only_if_stale_other]).
+   Part 3: codes that only probe and mount (and may give up): no stacking implies the outcome
+           of both serial orders.
+   The case-level statements (witnesses, C20_holds) are in Proofs/C20P.v. *)
 From LC Require Import Lib.Bytes Lib.Lex Lib.Fields Lib.PathM Model.FsTree Model.Conc.
 From Coq Require Import Sorting.Sorted ZifyBool ZifyNat.
 
